@@ -3,6 +3,7 @@
 #pragma once
 #include <cstdint>
 #include <cstdio>
+#include <cstdlib>
 #include <cstring>
 #include <cmath>
 #include <string>
@@ -148,6 +149,14 @@ struct DeadMap : std::exception
     const char *what() const noexcept override { return "call through a destroyed map instance"; }
 };
 
+// An injected fault that the system under test is expected to survive: a user callback is cancelled
+// (throws) in the middle of a library operation and the caller catches it.  Unlike every other exception
+// it does not end the run when it escapes a fiber: it is delivered to whoever joins that fiber.
+struct InjectedAbort : std::exception
+{
+    const char *what() const noexcept override { return "injected cancellation of a user callback"; }
+};
+
 struct Stall : std::exception
 {
     std::string msg;
@@ -184,7 +193,8 @@ struct RunCtx
     void count(const std::string &name, uint64_t n = 1) { NoRace g; counters[name] += n; }
     void ev(const char *what) { NoRace g; log.str(what); if (trace) trace->push_back(what); }
     void evs(const std::string &what) { NoRace g; log.str(what); if (trace) trace->push_back(what); }
-    void val(double v) { NoRace g; log.f64(v); state.f64(v); }
+    void val(double v) { NoRace g; log.f64(v); state.f64(v); if (dump_values()) std::fprintf(stderr, "VAL %a\n", v); }
+    static bool dump_values() { static const bool d = std::getenv("STSIM_DUMP_VALUES") != nullptr; return d; }
     void ival(int64_t v) { NoRace g; log.i64(v); state.i64(v); }
     void checked() { NoRace g; ++oracle_checks; }
     void mark_nontrivial() { NoRace g; nontrivial = true; }
